@@ -11,6 +11,9 @@ def fmtOf (t : Int) : Option Fmt := if t == 32 then some b32 else if t == 64 the
 def toBits (F : Fmt) (i : Int) : Nat := (i % (2 ^ F.width : Nat)).toNat
 
 def fb (F : Fmt) (b : Nat) : String := if F.isNaN b then "nan" else toString b
+/-- results of the sign-bit operations (fabs, abs, copysign): the sign bit of a NaN result is printed too
+    (`nan+` / `nan-`); the payload of a NaN is never observed -/
+def fbs (F : Fmt) (b : Nat) : String := if F.isNaN b then (if F.sign b then "nan-" else "nan+") else toString b
 def fbool (b : Bool) : String := if b then "1" else "0"
 def fopt : Option Int → String
   | some i => toString i
@@ -32,8 +35,8 @@ def unary (F : Fmt) (p : Model.Path) (f : String) (x : Nat) : Option (String × 
   | "rint" => some (fE (fb F) (Model.rint F p x), fb F (F.rint x))
   | "lrint" => some (fE fopt (Model.lrint F 64 p x), fopt (F.lrint 64 x))
   | "llrint" => some (fE fopt (Model.lrint F 64 p x), fopt (F.lrint 64 x))
-  | "fabs" => some (fb F (Model.absImpl F x), fb F (F.fabs x))
-  | "abs" => some (fb F (Model.absImpl F x), fb F (F.fabs x))
+  | "fabs" => some (fbs F (Model.absImpl F x), fbs F (F.fabs x))
+  | "abs" => some (fbs F (Model.absImpl F x), fbs F (F.fabs x))
   | "signbit" => some (fbool (Model.signbit F p x), fbool (F.signbit x))
   | "isnan" => some (fbool (F.isNaN x), fbool (F.isNaN x))
   | "isinf" => some (fbool (F.isInf x), fbool (F.isInf x))
@@ -43,18 +46,17 @@ def unary (F : Fmt) (p : Model.Path) (f : String) (x : Nat) : Option (String × 
 /-- (model, spec) of a binary exact function -/
 def binary (F : Fmt) (p : Model.Path) (f : String) (x y : Nat) : Option (String × String) :=
   match f with
-  | "copysign" => some (fb F (Model.copysign F p x y), fb F (F.copysign x y))
+  | "copysign" => some (fbs F (Model.copysign F p x y), fbs F (F.copysign x y))
   | "fmin" => some (fb F (Model.fmin F x y), if F.zerosDiffer x y || F.isSNaN x || F.isSNaN y then "*" else fb F (F.fmin x y))
   | "fmax" => some (fb F (Model.fmax F x y), if F.zerosDiffer x y || F.isSNaN x || F.isSNaN y then "*" else fb F (F.fmax x y))
   | "fdim" => some (fb F (Model.fdim F x y), fb F (F.fdim x y))
-  -- run time: the libm builtin; constant evaluation: gcem's series, not modelled (known finding)
-  | "fmod" => some (if p == .rt then fb F (F.fmod x y) else "*", fb F (F.fmod x y))
+  -- run time: the libm builtin; constant evaluation: the NaN / infinite-divisor ladder, then the builtin (Model.fmodCt)
+  | "fmod" => some (fb F (Model.fmod F p x y), fb F (F.fmod x y))
   | "remainder" =>
     -- glibc 2.36 returns a zero of the wrong sign for some subnormal divisors (IEC 60559: the sign of x); the sign
     -- of a zero remainder of a non-zero x is therefore not compared
-    let r := F.remainder x y
-    let s := if F.isZero r && !F.isZero x then "*" else fb F r
-    some (if p == .rt then s else "*", s)
+    let pr (r : Nat) : String := if F.isZero r && !F.isZero x then "*" else fb F r
+    some (pr (Model.remainder F p x y), pr (F.remainder x y))
   | "nextafter" => some (fb F (Model.nextafter F x y), fb F (F.nextafter x y))
   | _ => none
 
@@ -98,7 +100,7 @@ def step (_ : Unit) (l : Line) : Unit × String :=
         out (joinWith "," (rs.map (·.1))) (joinWith "," (rs.map (·.2)))
       | _, _, _ => bad
     -- no Lean model (DESIGN §6): the harness itself judges these against libm / libstdc++
-    | "s" | "a" | "ca" | "c" => out "ok" "ok"
+    | "s" | "cs" | "a" | "ca" | "al" | "c" => out "ok" "ok"
     | _ => bad
 
 end Tetl.C16.Driver
